@@ -360,7 +360,107 @@ fn body_seeded(ch: &Ch) -> Run {
   run
 }
 
-pub fn prop(_tier: Tier) -> Prop {
+/// Chains that are entered again later (from a dynamic branch, from a second
+/// build) while any load call may fail or redirect elsewhere: failures at every
+/// position of a chain, under a history.
+fn body_fault_histories(ch: &Ch) -> Run {
+  use deno_graph::source::LoadResponse;
+  let mut run = Run::default();
+  let len = 1 + ch.shape("chain_len", 3); // 1..3 hops
+  let reenter = ch.shape("dynamic_branch_enters_at", len + 1);
+  let second = ch.flag("second_build");
+  let r = |i: usize| format!("https://x/r{i}.js");
+  let sched = Sched::new(SchedMode::Immediate);
+  let loader = ScriptedLoader::new(sched);
+  for i in 0..len {
+    loader.add(&r(i), Entry::Redirect(url(&r(i + 1))));
+  }
+  loader.add_text(&r(len), "export const a = 1;");
+  loader.add_text("https://x/root.ts", "import \"./r0.js\";\nawait import(\"./dyn.ts\");\n");
+  loader.add_text("https://x/dyn.ts", &format!("import \"./r{reenter}.js\";\nimport \"./r0.js\";\n"));
+  loader.add_text("https://x/again.ts", &format!("import \"./r0.js\";\nimport \"./r{reenter}.js\";\n"));
+  let injected: std::rc::Rc<std::cell::RefCell<Vec<String>>> = Default::default();
+  {
+    let ch2 = ch.clone();
+    let inj = injected.clone();
+    *loader.injector.borrow_mut() = Some(Box::new(move |call: &LoadCall, idx: usize| {
+      if call.kind != "load" || !call.specifier.path().starts_with("/r") {
+        return Answer::Honest;
+      }
+      // honest / not-found / error / redirect to any member of the chain
+      let k = ch2.choose("answer", 3 + len + 1);
+      match k {
+        0 => Answer::Honest,
+        1 => {
+          inj.borrow_mut().push(format!("call {idx} {} -> not-found", call.specifier));
+          Answer::Load(Ok(None))
+        }
+        2 => {
+          inj.borrow_mut().push(format!("call {idx} {} -> error", call.specifier));
+          Answer::Load(Err(other_err("injected failure")))
+        }
+        j => {
+          let to = url(&format!("https://x/r{}.js", j - 3));
+          inj.borrow_mut().push(format!("call {idx} {} -> redirect {to}", call.specifier));
+          Answer::Load(Ok(Some(LoadResponse::Redirect { specifier: to })))
+        }
+      }
+    }));
+  }
+  let mut graph = ModuleGraph::new(GraphKind::All);
+  let mut res = build_graph(&mut graph, vec![url("https://x/root.ts")], &loader, BuildCfg::default(), ch);
+  if second && res.is_ok() {
+    res = build_graph(&mut graph, vec![url("https://x/again.ts")], &loader, BuildCfg::default(), ch);
+  }
+  let log: Vec<String> = loader.log.borrow().iter().map(|c| format!("{} {} -> {}", c.kind, c.specifier, c.answer)).collect();
+  let desc = json!({"shape": "chain", "chain_len": len, "dynamic_branch_enters_at": r(reenter), "second_build": second, "injected": *injected.borrow(), "loader_calls": log});
+  if let Err(e) = res {
+    run.violate("build-did-not-finish", format!("{e:?}"), desc.clone());
+  }
+  // does the recorded redirect relation contain a cycle?
+  let cyclic = graph.redirects.keys().any(|k| {
+    let mut seen = BTreeSet::new();
+    let mut cur = k;
+    while let Some(n) = graph.redirects.get(cur) {
+      if !seen.insert(n.clone()) {
+        return true;
+      }
+      cur = n;
+    }
+    false
+  });
+  // a specifier that holds an entry of its own *and* is recorded as a redirect source
+  let both: Vec<String> = {
+    let ser = serde_json::to_value(&graph).unwrap();
+    ser["modules"].as_array().map(|a| a.iter().filter_map(|m| m["specifier"].as_str()).filter(|s| graph.redirects.contains_key(&url(s))).map(|s| s.to_string()).collect()).unwrap_or_default()
+  };
+  let shape_class = if cyclic {
+    "redirect-cycle"
+  } else if !both.is_empty() {
+    "entry-and-redirect-for-one-specifier"
+  } else {
+    "fault-history"
+  };
+  let extra: Vec<_> = (0..=len).map(|i| url(&r(i))).collect();
+  let before = run.violations.len();
+  let checks = check_lookups(&graph, &extra, shape_class, &mut run);
+  for v in run.violations.iter_mut().skip(before) {
+    v.detail = json!({"world": desc, "lookup": v.detail, "specifiers_with_entry_and_redirect": both});
+  }
+  run.evals = checks as u64;
+  run.state_key = hash_json(&desc);
+  run.nontrivial = !injected.borrow().is_empty();
+  let o = obs(&graph);
+  run.outcome_key = hash_json(&json!([o["redirects"], o["slots"].as_object().map(|m| m.iter().map(|(k, v)| (k.clone(), v.get("error_kind").cloned().unwrap_or(v["kind"].clone()))).collect::<serde_json::Map<_, _>>()), both]));
+  run.count("graphs_with_redirect_cycle", cyclic as u64);
+  run.count("graphs_with_entry_and_redirect_for_one_specifier", (!both.is_empty()) as u64);
+  if ch.describe() {
+    run.sample = Some(json!({"world": desc, "redirects": o["redirects"]}));
+  }
+  run
+}
+
+pub fn prop(tier: Tier) -> Prop {
   Prop {
     id: "C14",
     rule: "world = redirect shape (chain length 0..13 x terminal kind x types dependency, or cycle length 1..4 x tail 0..3) x loader max_redirects x second entry point; lockfile-seeded chains 1..15 / cycles with and without a following build. Non-trivial = the built graph records at least one redirect (seeded part: a build ran on top of the seeded redirects). Every lookup (resolve, get, try_get, contains, specifiers, resolve_dependency both preferences) is compared with the walk for every root, dependency target, redirect source and redirect target.".into(),
@@ -381,6 +481,15 @@ pub fn prop(_tier: Tier) -> Prop {
         body: Box::new(body_seeded),
         modes: vec![Mode::Full],
         what: "lockfile-seeded redirect chains and cycles",
+      },
+      Part {
+        name: "fault-histories",
+        body: Box::new(body_fault_histories),
+        modes: match tier {
+          Tier::Quick => vec![Mode::Deviations(1), Mode::Deviations(2)],
+          Tier::Thorough => vec![Mode::Deviations(2), Mode::Deviations(3), Mode::Deviations(4)],
+        },
+        what: "chains of 1-3 hops entered again from a dynamic branch and from a second build; every load of a chain member may be answered honestly, with not-found, an error, or a redirect to any chain member (so also cycles); failures at every position under a history",
       },
     ],
     termination_property: true,
